@@ -351,16 +351,55 @@ RUNS = {"fresh": 0, "second": 0}
 _RUNS_LOCK = threading.Lock()
 
 
-def tree_fingerprint() -> str:
-    """Identity of the tree under test (the 'tool version' of the statement): must not change while the check runs."""
+SRC: typing.Optional[pathlib.Path] = None  # private snapshot of <tree under test>/src for the duration of one campaign
+
+
+def src_dir() -> pathlib.Path:
+    return SRC if SRC is not None else core.REPO / "src"
+
+
+def tree_fingerprint(base: typing.Optional[pathlib.Path] = None) -> str:
+    """Identity of the generator sources (the 'tool version' of the statement)."""
     h = hashlib.sha256()
-    base = core.REPO / "src" / "nunavut"
+    base = (base if base is not None else core.REPO / "src") / "nunavut"
     for dirpath, dirnames, filenames in os.walk(base):
         dirnames[:] = sorted(d for d in dirnames if d != "__pycache__")
         for fn in sorted(filenames):
-            st = os.stat(os.path.join(dirpath, fn))
-            h.update(f"{os.path.relpath(os.path.join(dirpath, fn), base)}:{st.st_size}:{st.st_mtime_ns}\n".encode())
+            with open(os.path.join(dirpath, fn), "rb") as f:
+                h.update(f"{os.path.relpath(os.path.join(dirpath, fn), base)}:".encode() + hashlib.sha256(f.read()).digest())
     return h.hexdigest()
+
+
+def snapshot_tree(dst: pathlib.Path) -> str:
+    """
+    The statement fixes 'the templates ... and the tool version' for both runs of a pair.  A campaign takes minutes and the
+    tree under test may receive a commit meanwhile (seen in practice: an identical re-run differed because a template was
+    fixed between the two runs), so all runs of one campaign execute a private copy of core.REPO/src taken at the start.
+    """
+    global SRC
+    for _ in range(5):
+        before = tree_fingerprint()
+        if (dst / "src").exists():
+            shutil.rmtree(dst / "src")
+        shutil.copytree(core.REPO / "src", dst / "src", ignore=shutil.ignore_patterns("__pycache__"))
+        if tree_fingerprint() == before == tree_fingerprint(dst / "src"):
+            SRC = dst / "src"
+            return before
+    raise core.HarnessError(f"cannot take a consistent snapshot of {core.REPO}/src (it keeps changing)")
+
+
+def run_fresh(argv: typing.List[str], cwd: str, hashseed: str, fake_time: float) -> typing.Tuple[int, str, str]:
+    """Same as tool.run_sub (fresh interpreter through nnvg_wrap.py with the fake clock) but importing nunavut from src_dir()."""
+    if SRC is None:
+        return tool.run_sub(argv, cwd=cwd, hashseed=hashseed, fake_time=fake_time)
+    e = dict(os.environ)
+    e.pop("DSDL_INCLUDE_PATH", None)
+    e["PYTHONHASHSEED"] = str(hashseed)
+    e["PYTHONDONTWRITEBYTECODE"] = "1"
+    e["PYTHONPATH"] = str(src_dir())
+    cmd = [tool.PY, tool.WRAP, "--fake-time", repr(float(fake_time)), "--"] + [str(a) for a in argv]
+    p = subprocess.run(cmd, cwd=cwd, env=e, capture_output=True, text=True, timeout=600)
+    return p.returncode, p.stdout, p.stderr
 
 
 def run_once(u: dict, root: int, target: str, opts: dict, e: dict, lay: Layout) -> dict:
@@ -376,7 +415,7 @@ def run_once(u: dict, root: int, target: str, opts: dict, e: dict, lay: Layout) 
     cwd.mkdir(parents=True, exist_ok=True)
     argv = build_argv(u, root, target, opts, e, lay)
     if e["proc"] == "fresh":
-        rc, so, se = tool.run_sub(argv, cwd=str(cwd), hashseed=str(e["hs"]), fake_time=e["t"])
+        rc, so, se = run_fresh(argv, cwd=str(cwd), hashseed=str(e["hs"]), fake_time=e["t"])
         how = f"fresh process: PYTHONHASHSEED={e['hs']} fake-clock={e['t']!r} cwd={cwd} nnvg " + " ".join(argv)
     else:
         warm_out = lay.base / "W" / OUTNAME
@@ -390,7 +429,7 @@ def run_once(u: dict, root: int, target: str, opts: dict, e: dict, lay: Layout) 
         env.pop("DSDL_INCLUDE_PATH", None)
         env["PYTHONHASHSEED"] = str(e["hs"])
         env["PYTHONDONTWRITEBYTECODE"] = "1"
-        env["PYTHONPATH"] = os.pathsep.join([str(core.REPO / "src"), str(core.VERIF), str(core.VERIF / ".deps")])
+        env["PYTHONPATH"] = os.pathsep.join([str(src_dir()), str(core.VERIF), str(core.VERIF / ".deps")])
         p = subprocess.run([tool.PY, "-m", "vf.props.c07", "--worker"], input=json.dumps(job), cwd=str(cwd), env=env,
                            capture_output=True, text=True, timeout=600)
         if p.returncode != 0:
@@ -893,6 +932,7 @@ def minimise(sig: str, rep: dict, scratch_root: pathlib.Path) -> typing.Optional
 
 
 def run(ctx: core.Ctx):
+    global SRC
     ctx.rule = (
         "case = (dsdlgen universe, generated root, target in {c,cpp,py,html}, option set with auditing off, pair of run "
         "environments A/B differing in a drawn subset of {clock, hashseed, input-location, output-location, cwd, spelling, "
@@ -908,9 +948,10 @@ def run(ctx: core.Ctx):
         "every run starts from an empty output directory (regeneration over existing output is C12)",
         "relative spellings are computed with os.path.relpath from the run's cwd; they name the same directories",
         "file mtimes/modes are not compared (content and relative paths only, as the statement says)",
+        "all runs of one campaign import nunavut (and its templates) from a private copy of <tree under test>/src taken at the "
+        "start, so that a commit landing in the tree mid-campaign cannot masquerade as nondeterminism",
     ]
     n_univ, n_pairs = (10, 3) if ctx.quick else (80, 8)
-    fp0 = tree_fingerprint()
     cases: typing.List[dict] = []
     for k, (flavour, share) in enumerate(FLAVOURS):
         cases += draw_cases(ctx, flavour, n_univ * share // 10, n_pairs, seed_offset=7 + k)
@@ -923,6 +964,8 @@ def run(ctx: core.Ctx):
             except Exception as ex:
                 raise core.HarnessError(f"generated universe #{i} ({c['flavour']}) rejected by pydsdl: {type(ex).__name__}: {ex}")
     scratch_root = pathlib.Path(tempfile.mkdtemp(prefix="vf-c07-"))
+    fp0 = snapshot_tree(scratch_root / "tree")
+    ctx.extra["tree_fingerprint"] = fp0[:16]
     jobs = []  # (meta, args)
     for ci, c in enumerate(cases):
         for t in TARGETS:
@@ -940,8 +983,8 @@ def run(ctx: core.Ctx):
             results = list(ex.map(work, list(enumerate(jobs))))
         ctx.extra["tool_pairs"] = len(jobs)
         ctx.extra["tool_runs_main_phase"] = dict(RUNS)
-        if tree_fingerprint() != fp0:  # e.g. a commit landed in the tree between run A and its re-run: nothing observed is trustworthy
-            raise core.HarnessError(f"the tree under test ({core.REPO}) was modified while the check was running: inconclusive, re-run")
+        if SRC is None or tree_fingerprint(SRC) != fp0:
+            raise core.HarnessError("the private snapshot of the tree under test changed during the campaign")
 
         rejected = 0
         first_rep: typing.Dict[str, dict] = {}
@@ -1001,11 +1044,12 @@ def run(ctx: core.Ctx):
             with ThreadPoolExecutor(max_workers=JOBS) as ex:
                 mins = list(ex.map(lambda s: minimise(s, first_rep[s], scratch_root), todo))
             ctx.extra["tool_runs_total"] = dict(RUNS)
-            if tree_fingerprint() == fp0:  # otherwise keep the unreduced reproductions (found before the tree changed)
-                for s, m in zip(todo, mins):
-                    if m is not None:
-                        ctx.set_min_replay(s, m[1], m[0])
+            for s, m in zip(todo, mins):
+                if m is not None:
+                    ctx.set_min_replay(s, m[1], m[0])
+        ctx.extra["tree_under_test_changed_during_run"] = tree_fingerprint()[:16] != ctx.extra["tree_fingerprint"]
     finally:
+        SRC = None
         shutil.rmtree(scratch_root, ignore_errors=True)
 
     q = ctx.quick
